@@ -77,6 +77,18 @@ Theorem gene_seq_nth : forall tbl st gs ge chrom i, strand_ok st -> 0 <= gs -> g
 Proof. exact gene_seq_nth_l. Qed.
 Print Assumptions gene_seq_nth.
 
+(* get_cdna_sequence: the i-th letter of the CDS sequence is the strand-corrected genome letter at the
+   i-th CDS position (transcript -> genomic conversion over the CDS segments), both strands, any number
+   of segments; the attached reference start is the ORF start index *)
+Theorem cdna_seq_nth : forall tbl st ex cs chrom f i, wf (cds_segments cs) = true -> strand_ok st ->
+  last_end (cds_segments cs) <= zlen chrom -> 0 <= i < tx_len (cds_segments cs) ->
+  cds_start_index st ex cs = Ok f ->
+  exists sq g c, cdna_sequence tbl st ex cs chrom = Ok (sq, f) /\ zlen sq = tx_len (cds_segments cs) /\
+                 tx2g st (cds_segments cs) i = Ok g /\ exonic (cds_segments cs) g = true /\
+                 nthZ chrom g = Some c /\ nthZ sq i = Some (if st =? -1 then comp tbl c else c).
+Proof. exact cdna_seq_nth_l. Qed.
+Print Assumptions cdna_seq_nth.
+
 (* ORF start = transcript image of the first coding base of the CDS features + frame *)
 Theorem orf_start_agrees_plus : forall ex c0 cs f, wf ex = true -> c_frame c0 = Some f ->
   exonic ex (c_start c0) = true ->
@@ -299,3 +311,28 @@ Theorem code_gtf_iterate_pointer_is_model : forall lines, Forall (fun l => fst l
   Py_GTFPointer.py_gtf_iterate_pointer lines = POk (iterate lines).
 Proof. exact code_gtf_iterate_pointer_is_model_l. Qed.
 Print Assumptions code_gtf_iterate_pointer_is_model.
+
+(* the proposed repair of finding C11-bookend-plus changes nothing on well-separated exon lists (inside the
+   range test of get_transcript_index) and maps the shared boundary of two book-ended exons correctly *)
+Theorem bookend_fix_equiv : forall ex lo g acc, wf_from lo ex = true -> ex <> [] -> g < last_end ex ->
+  g2tx_plus_fixed ex g acc = g2tx_plus ex g acc.
+Proof. exact bookend_fix_equiv_l. Qed.
+Print Assumptions bookend_fix_equiv.
+
+Example bookend_fixed_example :
+  g2tx_plus_fixed [(10, 20); (20, 30)] 20 0 = Ok 10 /\ g2tx_plus [(10, 20); (20, 30)] 20 0 = Err EIntron.
+Proof. vm_compute. split; reflexivity. Qed.
+
+(* ---- get_cdna_sequence: body tied to the model (py2coq target 24; Gen/Py_TAM_cdna.v is regenerated
+        from the source text on every run) ---- *)
+From MoPep Require Gen.Py_TAM_cdna.
+From MoPep Require Import Proofs.Py2CoqCdnaProofs.
+
+Theorem code_cdna_sequence_translated : Py_TAM_cdna.py_cdna_sequence_untranslated = false.
+Proof. reflexivity. Qed.
+Print Assumptions code_cdna_sequence_translated.
+
+Theorem code_cdna_sequence_is_model : forall tbl st ex cs chrom,
+  Py_TAM_cdna.py_cdna_sequence tbl st ex cs chrom = cdna_sequence tbl st ex cs chrom.
+Proof. exact code_cdna_sequence_is_model_l. Qed.
+Print Assumptions code_cdna_sequence_is_model.
